@@ -56,6 +56,16 @@ class FastPolicy(Container[Sequence[str]]):
                 return entry
         raise KeyError("No such value exists")
 
+    def __setitem__(self, index: int, item: Sequence[str]) -> None:
+        self.remove(self[index])
+        self.append(item)
+
+    def index(self, item: Sequence[str]) -> int:
+        for i, entry in enumerate(self):
+            if entry == list(item):
+                return i
+        raise ValueError("{} is not in policy".format(item))
+
     def append(self, item: Sequence[str]) -> None:
         cache = self._cache
         keys = [item[x] for x in self._cache_key_order]
